@@ -22,8 +22,8 @@ func vhTimeoutMsg(w *cert.VWorld, s int, owner int, v hotstuff.View, si hotstuff
 // that is at (rel 0), behind (rel 1) or ahead of (rel 2) view v, with one hostile message
 // inserted at position pos (kind: 0 none, 1 wrong signature, 2 duplicate sender, 3 another view).
 func VH_C08_remote(n int, rule int, rel int, kind int, pos int) {
-	r := vhNewReplica(n, rule, hotstuff.ID(2), vsymbolic())
-	w := r.w
+	r := VNewReplica(n, rule, hotstuff.ID(2), vsymbolic())
+	w := r.W
 	q := hotstuff.QuorumSize(n)
 	v := hotstuff.View(nondetU64("timeout-view"))
 	vassume(v >= 2 && v < 1<<40)
@@ -34,22 +34,22 @@ func VH_C08_remote(n int, rule int, rel int, kind int, pos int) {
 	case 2:
 		cur = v + 1
 	}
-	r.states.VSetView(cur)
+	r.States.VSetView(cur)
 	start := nondetInt("start")
 	vassume(start >= 0 && start < n)
-	si := r.states.SyncInfo()
+	si := r.States.SyncInfo()
 	good := 0
 	emitted := false
 	step := 0
 	deliver := func(tm hotstuff.TimeoutMsg) {
-		r.sync.OnRemoteTimeout(tm)
-		r.drain()
+		r.Sync.OnRemoteTimeout(tm)
+		r.Drain()
 		step++
 	}
 	check := func() {
 		// a certificate was assembled iff a new-view message carrying a TC for v left the replica
 		var tcs []hotstuff.TimeoutCert
-		for _, nv := range r.comm.newViews {
+		for _, nv := range r.Comm.NewViews {
 			if tc, ok := nv.TC(); ok && tc.View() == v {
 				tcs = append(tcs, tc)
 			}
@@ -67,7 +67,7 @@ func VH_C08_remote(n int, rule int, rel int, kind int, pos int) {
 			}
 			vassert(tcs[0].Signature().Participants().Len() == q, "tc-built-from-exactly-the-quorum")
 			if rule == 1 {
-				agg, ok := r.comm.newViews[len(r.comm.newViews)-1].AggQC()
+				agg, ok := r.Comm.NewViews[len(r.Comm.NewViews)-1].AggQC()
 				vassert(ok, "aggregate-qc-attached")
 				if ok {
 					_, err := w.Auth.VerifyAggregateQC(agg)
@@ -75,7 +75,7 @@ func VH_C08_remote(n int, rule int, rel int, kind int, pos int) {
 				}
 			}
 			if rel == 0 {
-				vassert(r.states.View() == v+1, "replica-in-view-v-moves-to-v-plus-1")
+				vassert(r.States.View() == v+1, "replica-in-view-v-moves-to-v-plus-1")
 			}
 		}
 	}
@@ -107,5 +107,5 @@ func VH_C08_remote(n int, rule int, rel int, kind int, pos int) {
 		deliver(vhTimeoutMsg(w, s, s-1, v, si, rule == 1))
 		check()
 	}
-	vobserve("view", uint64(r.states.View()-cur))
+	vobserve("view", uint64(r.States.View()-cur))
 }
